@@ -282,6 +282,23 @@ META = {
         ],
         run_cap_s=300, shrink_tests=40, shrink_s=120,
     ),
+    "C12": _m(
+        "E", "exploration", (24, 4000), (600, 3000),
+        "Each run = one Engine run of an HMCKernel or NUTSKernel (diagonal or dense mass matrix) over 2-3 position keys of different shapes "
+        "(scalar, vector, matrix) whose scales differ by 10^2-10^6, listed in a random order (mostly non-alphabetical), optionally next to an "
+        "RWKernel on a parameter of yet another scale, with 1-3 slow-adaptation epochs of 40-80 iterations (plus fast / burn-in / posterior "
+        "epochs) and 1-3 chains; half of the runs are repeated with the keys listed in another order. Non-trivial = at least one tuned "
+        "matrix compared; distinct = distinct configuration.",
+        "kernel transitions x chains (MCMC iterations)",
+        "distinct (kernel, diag/dense, key names/shapes/scales, listed order, schedule, co-existing kernel) tuples",
+        ["liesel.goose.HMCKernel / NUTSKernel (_tune_slow), mm.tune_inv_mm_diag / tune_inv_mm_full, Engine (history hand-over), blackjax integrators"],
+        ["independent-normal dict log-density"],
+        [
+            "the reference is the float64 (co)variance (ddof=1) of the epoch's recorded positions of the kernel's own keys + 1e-3 on the diagonal, in jax.flatten_util.ravel_pytree order (sorted keys), compared with the kernel state stored after the first transition of the next epoch (rtol 2e-3)",
+            "blackjax's integrator is trusted; only the alignment of the matrix with the flat coordinates is decided here",
+        ],
+        run_cap_s=600, shrink_tests=12, shrink_s=200,
+    ),
 }
 
 
@@ -296,6 +313,14 @@ NOT_APPLICABLE["C18"] = (
 )
 
 MANIFEST_TEXT = {
+    "C12": dict(
+        technique="deterministic simulation: seeded engine runs of real HMC/NUTS kernels over key orders/shapes/scales and schedules; stored kernel states vs a float64 reference (co)variance of the recorded history",
+        design_ref="DESIGN.md section 4 C12, section 3 world E",
+        level_text="Seeded search over position-key orders (incl. non-alphabetical), shapes, scales differing by orders of magnitude, diagonal/dense "
+        "mode, numbers of slow-adaptation epochs and co-existing kernels; after every slow epoch the stored inverse mass matrix is compared "
+        "entry by entry with the reference (co)variance in flat-coordinate order; permuted-key twins must agree. Sampling, not a proof.",
+        level_note="Trusted: blackjax, numpy var/cov. The density is a stub; kernels, tuner, engine are real.",
+    ),
     "C05": dict(
         technique="deterministic simulation with fault injection: injected non-finite densities/corrections and rare PRNG outcomes (uniform draw exactly 0) on mh_step, kernels and engine runs; accept/reject histories vs the exact rule",
         design_ref="DESIGN.md section 4 C05, section 1.2 F2/F4/F5",
